@@ -4,7 +4,7 @@ import os
 import vlib
 
 ADV = ["Adv_DropRrsig", "Adv_DropRrset", "Adv_ReplaceRdata", "Adv_WrongSigner", "Adv_Expire",
-       "Adv_NotYetValid", "Adv_ForgeSigned", "Adv_CorruptKey", "Adv_CorruptDs", "Adv_StripProof",
+       "Adv_NotYetValid", "Adv_ForgeSigned", "Adv_AddBadSig", "Adv_CorruptKey", "Adv_CorruptDs", "Adv_StripProof",
        "Adv_ForgeNsecRange", "Adv_SwapProof", "Adv_BadNsec3Label", "Adv_BadNsec3LabelSigned",
        "Adv_ZeroCounts", "Adv_ZeroTtl", "Adv_Inject", "Adv_CnameLoop"]
 VAL = ["Deliver", "StartGroup", "FetchNext", "VerifyKey", "VerifyDs", "Probe", "CheckGroup", "Judge"]
@@ -15,8 +15,8 @@ DEV_INVARIANT = {"D_nsec3_label_expect": "NoPanic", "D_ttl0_node_panic": "NoPani
 
 META = {
     "category": "model_checking",
-    "text": "SCENARIO-LEVEL check. Validator.tla models the validator's walk (per RRset group: fetch DNSKEY/DS, verify, descend, cache; then classify positive / wildcard / NODATA / NXDOMAIN / CNAME chain / DS) with one adversary action per rewrite kind (17) applied to any message on the wire, next to a declarative RFC 4035 s.5 oracle (ChainO/AnswerO over the messages as served, symbolic signatures). TLC checks Soundness, HonestSecure, InsecureNotBogus, WithinAllowed, NoPanic, Terminates exhaustively over 4 hierarchy shapes x 3 denial flavours x 7 query kinds x every single rewrite (quick, 5k scenarios) / every pair of rewrites on different messages (thorough). Every scenario is then performed against the real validator: hierarchy signed with the library's signer and real ECDSA P-256 keys around the current time, NSEC/NSEC3/opt-out chains from the library's generators, mock upstream applying the rewrites; ValidationContext::validate_msg's state and net::client::validator::Connection's AD bit / SERVFAIL are compared with the specification. The real validator's upstream fetch sequences are recorded and validated by TLC against the machine (Trace_Validator.tla).",
-    "note": "Shallowest of the twenty checks: a scenario grid, not a proof over all zones/messages. Not covered: more than two composed rewrites; RSA/other algorithms; DNAME; NSEC3 iteration limits and max_bad_signatures beyond defaults; key-tag collisions; multiple keys/DS per zone, key rollovers; cache expiry over time; concurrent validations; message-level malformations other than zeroed counts (C01). Verdicts are compared against the set the property admits (adversary harmless => Secure or Bogus); the machine's exact verdict match is reported as a statistic. Trusted: TLC, ring, the harness's authoritative responder (the honest grid must come out Secure/Insecure for the check to pass). Three named deviations are open (see known_findings.json). Needs hook validator_nsec_reexport.diff (H3) for the denial-helper stage; without it that stage is skipped and recorded as such.",
+    "text": "SCENARIO-LEVEL check. Validator.tla models the validator's walk (per RRset group: fetch DNSKEY/DS, verify, descend, cache; then classify positive / wildcard / NODATA / NXDOMAIN / CNAME and DNAME chains / DS) with one adversary action per rewrite kind (19, incl. AddBadSig(n, position): extra non-verifying RRSIGs within / beyond the max_bad_signatures tolerance on answer, DS and DNSKEY RRsets) applied to any message on the wire, next to a declarative RFC 4035 s.5 oracle (ChainO/AnswerO over the messages as served, symbolic signatures). TLC checks Soundness, HonestSecure, InsecureNotBogus, WithinAllowed, NoPanic, Terminates exhaustively over 4 hierarchy shapes x 3 denial flavours x 9 query kinds (incl. DNAME in the zone and DNAME in an insecure sibling zone pointing into the secure zone) x every single rewrite (quick, 9k scenarios + 3k forged-key pairs) / every pair of rewrites on different messages (thorough). Every scenario is then performed against the real validator: hierarchy signed with the library's signer and real ECDSA P-256 keys around the current time, NSEC/NSEC3/opt-out chains from the library's generators, mock upstream applying the rewrites; ValidationContext::validate_msg's state and net::client::validator::Connection's AD bit / SERVFAIL are compared with the specification. The real validator's upstream fetch sequences are recorded and validated by TLC against the machine (Trace_Validator.tla).",
+    "note": "Shallowest of the twenty checks: a scenario grid, not a proof over all zones/messages. Not covered: more than two composed rewrites; RSA/other algorithms; wildcard or multi-hop DNAME; NSEC3 iteration limits and max_bad_signatures beyond defaults; key-tag collisions; multiple keys/DS per zone, key rollovers; cache expiry over time; concurrent validations; message-level malformations other than zeroed counts (C01). Verdicts are compared against the set the property admits (adversary harmless => Secure or Bogus); the machine's exact verdict match is reported as a statistic. Trusted: TLC, ring, the harness's authoritative responder (the honest grid must come out Secure/Insecure for the check to pass). Two of three named deviations found are repaired (panic on non-Base32hex NSEC3 label, panic on TTL-0 nodes); D_extra_rrset_ignored is open. Signature times are compared in plain u32 order by the code (RFC 4034 3.1.5 demands serial arithmetic): witnessed with inception 0xFFFF0000, judged outside the property text, described in the report only. Needs hook validator_nsec_reexport.diff (H3) for the denial-helper stage; without it that stage is skipped and recorded as such.",
     "technique": "TLA+ spec (Validator.tla: validator walk + adversary actions + declarative oracle) + TLC exhaustive over the scenario grid; spec->impl scenario replay on a really signed hierarchy; impl->spec validation of recorded fetch sequences",
     "design_ref": "DESIGN.md §4 C14",
 }
@@ -41,6 +41,8 @@ def run(ctx):
     ctx.exhaustive_flags.append(True)
     # each deviation, enabled in the model, breaks the invariant it is about
     for dev, inv in sorted(DEV_INVARIANT.items()):
+        if dev not in ctx.open_devs:
+            continue   # repaired in the code: documentation only, not run
         r = ctx.tlc("MC_Validator", "MC_Validator_dev_" + dev, workers=4, label="dev-" + dev,
                     expect_violation=inv, count=False, coverage=False)
         if not r.ok:
